@@ -154,7 +154,15 @@ func TestC06Rapid(t *testing.T) {
 				data = multibyteHookData(rapid.IntRange(20, 40).Draw(rt, "emoji"))
 				c.Class("deposit-whose-hook-fails-with-a-multibyte-reason")
 			}
-			_, p := tc.l1Deposit(from, to, coinOf(denom, amt), data)
+			coin := coinOf(denom, amt)
+			if data == nil && rapid.IntRange(0, 9).Draw(rt, "hugeAmount") == 0 {
+				// an amount above 2^63-1 that still fits the 64 bits L1 accepts (ten units of an 18-decimals token)
+				huge := math.NewIntFromUint64(1<<63 + uint64(rapid.IntRange(0, 1000).Draw(rt, "hugeExtra")))
+				tc.l1.Fund(from.Addr, sdk.NewCoin(denom, huge))
+				coin = sdk.NewCoin(denom, huge)
+				c.Class("deposit-of-2^63-or-more")
+			}
+			_, p := tc.l1Deposit(from, to, coin, data)
 			if p == nil {
 				rt.Fatalf("setup: L1 deposit rejected")
 			}
